@@ -599,7 +599,7 @@ func (p c18) Run(seed uint64, run int, tier string, acc *Acc) *Violation {
 		return nil
 	}
 	// fault enumeration on a healthy tree
-	t := GenTree(r, TreeOpts{Pages: r.Range(1, 3), Depth: 1, Ext: Pick(r, []string{".tw", ".tw.html"})})
+	t := GenTree(r, TreeOpts{Pages: r.Range(1, 3), Depth: 1, Ext: Pick(r, []string{".tw", ".tw.html"}), NoBig: true})
 	base := &Scenario{Prop: "C18", Family: "faults", Cwd: t.Cwd, Files: t.Clean(), Seed: seed, Run: run}
 	base.Ops = []Op{t.LoadOp()}
 	EventLog = base.Hash()
